@@ -16,6 +16,11 @@ pub fn compact_graph<IntT: for<'a> UInt<'a>>(
 
     // from start k-mers
     start_kmers.par_iter().for_each(|kmer| {
+        #[cfg(feature = "verif-hooks")]
+        crate::verif_hooks::point(
+            "compact_start",
+            (*kmer & IntT::skalo_mask(31)).to_u64().unwrap_or(0),
+        );
         if let Some(starting_kmers) = all_kmers.get(kmer) {
             for starting_kmer in starting_kmers.iter() {
                 let mut current_kmer = *starting_kmer;
@@ -53,6 +58,11 @@ pub fn compact_graph<IntT: for<'a> UInt<'a>>(
 
     // from end k-mers
     end_kmers.par_iter().for_each(|kmer| {
+        #[cfg(feature = "verif-hooks")]
+        crate::verif_hooks::point(
+            "compact_end",
+            (*kmer & IntT::skalo_mask(31)).to_u64().unwrap_or(0),
+        );
         if let Some(starting_kmers) = all_kmers.get(kmer) {
             for starting_kmer in starting_kmers.iter() {
                 let mut current_kmer = *starting_kmer;
